@@ -93,7 +93,7 @@ Definition over_load (s : hset) : bool :=
   negb (hs_count s * HASHSET_COUNT_MULT / hs_size s * HASHSET_SIZE_MULT =? 0).
 
 (* ZSTD_DDictHashSet_addDDict *)
-Definition add (h : N -> N) (next : N -> N -> N) (s : hset) (e : entry) : hres hset :=
+Definition add_ddict (h : N -> N) (next : N -> N -> N) (s : hset) (e : entry) : hres hset :=
   if over_load s
   then match expand h next s with
        | HOk s' => emplace h next s' e
@@ -129,7 +129,7 @@ Definition create : hset := empty_set HASHSET_BASE_SIZE.
 Fixpoint add_all (h : N -> N) (next : N -> N -> N) (l : list entry) (s : hset) : hres hset :=
   match l with
   | [] => HOk s
-  | e :: t => match add h next s e with
+  | e :: t => match add_ddict h next s e with
               | HOk s' => add_all h next t s'
               | r => r
               end
